@@ -107,6 +107,23 @@ def handle (args : List String) : String :=
     match parseCase rest with
     | some c => showRes (fields (readDir c.root) extMatcher c.cfg c.pwd c.segs)
     | none => "bad-op"
+  | "specfields" :: rest =>
+    match parseCase rest with
+    | some c =>
+      match specFields c.root c.cfg c.pwd c.segs with
+      | .outside => "outside"
+      | .ok fs => " ".intercalate ("ok" :: fs.map hexOfRunes)
+    | none => "bad-op"
+  | "bashspec" :: rest =>
+    -- what `printf '%s\n' <word>` prints, line by line (no fields: one empty line)
+    match parseCase rest with
+    | some c =>
+      match specFields c.root c.cfg c.pwd c.segs with
+      | .outside => "outside"
+      | .ok [] => "out -"
+      | .ok fs => " ".intercalate ("out" :: fs.map hexOfRunes)
+    | none => "bad-op"
+  | "memfs" :: _ => "same"   -- harness self-check: in-memory tree = scratch directory for interp
   | ["clean", h] =>
     match runesOfHex h with
     | some p => hexOfRunes (clean p)
